@@ -133,27 +133,32 @@ func (e *evaluationNode) Evaluate(r table.Row) (bool, error) {
 		return false, err
 	}
 
-	// comparable string expressions for left and right tokens.
-	var csEL, csER string
-	csEL, err = formatCell(leftBinding)
-	if err != nil {
-		return false, fmt.Errorf("evaluationNode.Evaluate failed, the call for formatCell(%s) returned error: %v", leftBinding, err)
+	// Values of different kinds never compare; values of one kind compare by value.
+	cmp, ok := table.CompareCells(comparableCell(leftBinding), comparableCell(rightBinding))
+	if !ok {
+		return false, nil
 	}
-	csER, err = formatCell(rightBinding)
-	if err != nil {
-		return false, fmt.Errorf("evaluationNode.Evaluate failed, the call for formatCell(%s) returned error: %v", rightBinding, err)
-	}
-
 	switch e.operation {
 	case EQ:
-		return csEL == csER, nil
+		return cmp == 0, nil
 	case LT:
-		return csEL < csER, nil
+		return cmp < 0, nil
 	case GT:
-		return csEL > csER, nil
+		return cmp > 0, nil
 	default:
 		return false, fmt.Errorf("boolean evaluation requires a boolean operation; found %q instead", e.operation)
 	}
+}
+
+// comparableCell returns the cell to compare: string cells (extracted ids and
+// types) compare as text literals do.
+func comparableCell(c *table.Cell) *table.Cell {
+	if c != nil && c.S != nil {
+		if l, err := literal.DefaultBuilder().Build(literal.Text, *c.S); err == nil {
+			return &table.Cell{L: l}
+		}
+	}
+	return c
 }
 
 // comparisonForLiteral represents the internal representation of an expression of comparison between a binding and a literal.
@@ -185,21 +190,17 @@ func (e *comparisonForLiteral) Evaluate(r table.Row) (bool, error) {
 		return false, nil
 	}
 
-	// comparable string expressions for left and right tokens.
-	var csEL, csER string
-	csEL, err = formatCell(leftBinding)
-	if err != nil {
-		return false, fmt.Errorf("comparisonForLiteral.Evaluate failed, the call for formatCell(%s) returned error: %v", leftBinding, err)
+	cmp, ok := table.CompareCells(comparableCell(leftBinding), &table.Cell{L: rightLiteral})
+	if !ok {
+		return false, nil
 	}
-	csER = rightLiteral.ToComparableString()
-
 	switch e.operation {
 	case EQ:
-		return csEL == csER, nil
+		return cmp == 0, nil
 	case LT:
-		return csEL < csER, nil
+		return cmp < 0, nil
 	case GT:
-		return csEL > csER, nil
+		return cmp > 0, nil
 	default:
 		return false, fmt.Errorf("boolean evaluation requires a boolean operation; found %q instead", e.operation)
 	}
